@@ -21,6 +21,8 @@ StrProducers(s) == {   \* s: code points
   <<"function", Id1(Lit(VStr(s)))>>,
   <<"returned-literal", Call(Id("lit0"), <<>>)>>,      \* a function whose body is `return <the literal>`
   <<"input", Call(Id("input"), <<>>)>> }
+  \cup (IF s = StrCps("12")    \* round 7: the text of a number spliced to the empty string on either side
+        THEN { <<"empty-plus-number", Bin("+", Lit(VStr(<<>>)), Num(12))>>, <<"number-plus-empty", Bin("+", Num(12), Lit(VStr(<<>>)))>> } ELSE {})
 StrVals == { <<"empty", <<>>>>, <<"abc", StrCps("abc")>>, <<"12", StrCps("12")>>, <<"b1.5", <<2535, 46, 2539>>>>, <<"k", StrCps("k")>>,
              <<"yya", <<2488, 2478, 2527>>>> }       \* contains precomposed U+09DF: NFC would rewrite it
 
